@@ -38,9 +38,9 @@ class C10(Harness):
     )
     assumptions = (
         "batches arrive in time order; the second batch may overlap the first by one label (with a different value)",
-        "update_predict is given a stretch that starts right after the data seen so far",
+        "update_predict is given a stretch that starts right after the data seen so far or overlaps it by one label",
     )
-    outside = ("histories longer than the enumerated programs", "exogenous data", "datetime indices")
+    outside = ("update_predict(update_params=True) over a stretch that overlaps seen data (repeated cutoff labels in the result frame)", "histories longer than the enumerated programs", "exogenous data", "datetime indices")
 
     def bounds(self, tier):
         return {"programs": PROGRAMS[tier], "fit_len": "2..3", "batch_len": "1..2 (update_predict: max(fh)+1..3, so that the moving window fits)", "fh_steps": "1..2, h <= 2", "overlap": "0..1"}
@@ -79,7 +79,7 @@ class C10(Harness):
             else:
                 ctx.assume((m >= 1) & (m <= 2))
             m = int(m)
-            o = inp["ov"] if (first and not op.startswith("UP")) else 0
+            o = inp["ov"] if (first and op != "UP1") else 0  # (a refitting update_predict over an overlapping stretch repeats a cutoff label: outside)
             inp["batches"].append({"ov": o, "vals": fresh_reals(ctx, "b%d_" % i, m)})
             first = False
         return inp
@@ -99,7 +99,7 @@ class C10(Harness):
         if kind == "ensemble":
             ENS = W.load("sktime.forecasting.compose._ensemble").EnsembleForecaster
             return ENS([("a", NF(strategy="last")), ("b", Member(p=2))])
-        T, _ = make_transformer(W, log)
+        T, _ = make_transformer(W, log, stateful=True)
         PIPE = W.load("sktime.forecasting.compose._pipeline").TransformedTargetForecaster
         return PIPE([("t", T(tag=1)), ("f", Member(p=3))])
 
@@ -158,6 +158,8 @@ class C10(Harness):
                         else:
                             rec["up"] = {"kind": "frame", "cols": [S(c) for c in r.columns], "idx": L(r.index), "vals": [L(r.iloc[:, j].values) for j in range(r.shape[1])]}
                         ref = []
+                        if b["ov"]:
+                            twin._set_cutoff(yb.index[0] - 1)  # the reference walks the stretch from just before its first label
                         for win, _ in cv.split(yb):
                             yw = yb.iloc[win]
                             twin.update(yw, update_params=up)
@@ -183,8 +185,9 @@ class C10(Harness):
         fitted_len = len(inp["y1"])
         have_fh = inp["fh_in_fit"]
         F = lambda p, c, l: W.uf("forecast", [p, c, l], "iii>r")  # noqa
-        Tf = lambda v: W.uf("t", [1, v], "ir>r")  # noqa
-        Ti = lambda v: W.uf("tinv", [1, v], "ir>r")  # noqa
+        tstate = [0]  # the pipeline's transformer is stateful: every update with update_params=True moves it
+        Tf = lambda v: W.uf("t", [1 + 100 * tstate[0], v], "ir>r")  # noqa
+        Ti = lambda v: W.uf("tinv", [1 + 100 * tstate[0], v], "ir>r")  # noqa
         bi = 0
 
         def expect(h, co, flen):
@@ -239,6 +242,8 @@ class C10(Harness):
             start = st["start"]
             up = op.endswith("1")
             if op in ("U1", "U0", "S1", "S0"):
+                if up and kind == "pipeline":
+                    tstate[0] += 1
                 for i, v in enumerate(b["vals"]):
                     mem[start + i] = v
                 cutoff_off = start + len(b["vals"]) - 1
@@ -257,7 +262,7 @@ class C10(Harness):
                 ref = st["ref"]
                 upo = st["up"]
                 # independent expectations for the twin's single steps
-                co = cutoff_off
+                co = start - 1  # the walk starts just before the stretch (= the cutoff unless the stretch overlaps seen data)
                 fl = fitted_len
                 for r in ref:
                     for w in r["win"]:
@@ -266,6 +271,11 @@ class C10(Harness):
                         co = start + r["win"][-1]
                     if up:
                         fl = len(mem)
+                    if b["ov"]:
+                        # a stretch that overlaps seen data: which cutoff the first (empty-window) step forecasts from is
+                        # not fixed by the property (a refitting update re-anchors at the end of the remembered data);
+                        # only the equality with the explicit single steps, the remembered data and the restored cutoff are judged
+                        continue
                     P.eq("update_predict-equals-single-steps", r["cutoff"], s0 + co)
                     for a, v, h in zip(r["idx"], r["vals"], fh):
                         P.eq("update_predict-equals-single-steps", a, s0 + co + h)
@@ -309,7 +319,10 @@ class C10(Harness):
             nb = sum(1 for st in out["steps"] if st["op"] in ("U1", "U0", "S1", "S0") and "raised" not in st)
             P.check("composite-propagates-update", len(ups) == nb)
             k = 0
+            tstate[0] = 0
             for st in out["steps"]:
+                if st["op"] in ("U1", "S1") and kind == "pipeline":
+                    tstate[0] += 1  # the batch reaches the forecaster as transformed by the *updated* transformer
                 if st["op"] in ("U1", "U0", "S1", "S0") and "raised" not in st and k < len(ups):
                     b = [bb for bb in inp["batches"]][k]
                     e = ups[k]
